@@ -442,7 +442,8 @@ def derive_kinds(it, f, args, out_dtype):
         return NONNEG
     t0 = _time.time()
     s = z3.Solver()
-    s.set('timeout', 3000)
+    s.set('rlimit', 3000 * 2500)          # deterministic budget; the wall clock is a safety net only
+    s.set('timeout', 120000)
     vals = []
     for a in args:
         override = None
